@@ -30,7 +30,7 @@ var failingActions = []struct{ class, src string }{
 	{"unknown-identifier", "noSuchVariable"},
 	{"unknown-identifier", "noSuchFunction(1)"},
 	{"unknown-field", "fuser.NoSuchField"},
-	{"unknown-field", ".NoSuchField"},
+	{"unknown-field", ".NoSuchField.Deeper"},
 	{"unknown-method", "fuser.NoSuchMethod()"},
 	{"unknown-block", "yield noSuchBlock()"},
 	{"unknown-template", `include "/no/such/template.jet"`},
